@@ -149,12 +149,21 @@ func c17() {
 			forceRemove(base)
 		}
 	})
+	mids := r.Pick(96, 2400)
+	parallel(workers, func(w int) {
+		for i := w; i < mids; i += workers {
+			rng := r.Rand(fmt.Sprintf("c17-mid-%d", i))
+			base := filepath.Join(scratch, fmt.Sprintf("m%d", i))
+			c17Mid(r, rng, i, base)
+			forceRemove(base)
+		}
+	})
 	r.Assume("access = anything inotify reports for a watched directory or its children (open, read, write, attribute change, create, delete, rename); stat/lstat/readlink of the link itself produce no event and are not in the property's verb list")
 	r.Assume("inotify queues an event inside the system call causing it, so a drain after the operation returned is complete; every operation also touches a watched control directory inside the root and is discarded as inconclusive when that produced no event")
 	if r.Counter("operations_checked") == 0 {
 		r.Inconclusive("no operation was checked")
 	}
-	r.Finish("roots holding a link (absolute or relative, direct or chained) to a watched canary directory outside the root, or a directory / file that is replaced by such a link after the scan (replaced by a twin with identical names, content, size, mtime and mode; or the directory itself moved into the canary so that inodes match the digest cache); operations: core.Scan in 3 link modes and accelerated, core.Transition plans beneath/at the link (create file/dir/link, remove file/dir, swap file) with a forged or real digest cache, rsync.Transmit reading beneath the link, the rsync receiver opening bases beneath it, the local endpoint's Scan/Stage/Transition; plus scans racing a goroutine that exchanges the directory and the link; verdict = inotify events on the canary, canary re-observation, crossing path reported as failed; distinct = (layout, operation, depth, relative)", 30)
+	r.Finish("roots holding a link (absolute or relative, direct or chained) to a watched canary directory outside the root, or a directory / file that is replaced by such a link after the scan (replaced by a twin with identical names, content, size, mtime and mode; or the directory itself moved into the canary so that inodes match the digest cache); operations: core.Scan in 3 link modes and accelerated, core.Transition plans beneath/at the link (create file/dir/link, remove file/dir, swap file) with a forged or real digest cache, rsync.Transmit reading beneath the link, the rsync receiver opening bases beneath it, the local endpoint's Scan/Stage/Transition; plus scans racing a goroutine that exchanges the directory and the link; the same replacement INSIDE one rsync.Transmit / one receiver stream (after the first file, so that parent handles are cached) and inside one core.Transition call (triggered from the Provider, or carried out by the plan itself); transitions creating links to canary objects with a default owner and group configured (canary uid/gid compared); verdict = inotify events on the canary, canary re-observation, crossing path reported as failed; distinct = (layout, operation, depth, relative)", 30)
 }
 
 func mustWrite(path string, data []byte, mode os.FileMode) {
@@ -378,6 +387,7 @@ func c17One(r *vk.Run, rng *rand.Rand, index int, base string) {
 	if ep != nil {
 		e.endpointOps(rng, ep)
 	}
+	e.ownerOp(rng, cache)
 }
 
 // probe arms the sensor, runs one operation and judges it.
